@@ -9,3 +9,8 @@ import Solvor.Flow.Theorems
 #print axioms Solvor.Flow.assignment_of_flow
 #print axioms Solvor.Flow.assignment_optimal_of_cert
 #print axioms Solvor.Flow.chkAssign_sound
+#print axioms Solvor.Flow.pair_costs_faithful_partial
+#print axioms Solvor.Flow.pair_costs_misprice
+#print axioms Solvor.Flow.Inst.certify_sound
+#print axioms Solvor.Flow.ssp_sound
+#print axioms Solvor.Flow.ssp_sound_transshipment
